@@ -1,6 +1,7 @@
 package checks
 
 import (
+	"io"
 	"bytes"
 	"encoding/json"
 	"fmt"
@@ -51,6 +52,32 @@ type hostTree struct {
 	owners map[string][2]uint32
 	mtimes map[string]int64
 	xattrs map[string]map[string]string
+	// huge: files defined by a size and a few data segments (everything else is a hole); compared through probe windows
+	huge map[string]hugeFile
+	// removed: files that are put in by mke2fs -d and then removed again with debugfs rm (after e2fsck -fD), so that the
+	// directory keeps unused records - also as the first record of a block - in front of live ones
+	removed []string
+}
+
+type hugeFile struct {
+	size int64
+	segs []hugeSeg
+}
+type hugeSeg struct {
+	off  int64
+	data []byte
+}
+
+func (h hugeFile) expect(off int64, n int) []byte {
+	out := make([]byte, n)
+	for _, sg := range h.segs {
+		for i := range sg.data {
+			if p := sg.off + int64(i) - off; p >= 0 && p < int64(n) {
+				out[p] = sg.data[i]
+			}
+		}
+	}
+	return out
 }
 
 var hostTrees = struct {
@@ -76,6 +103,25 @@ func buildHostTree(kind string) (*hostTree, error) {
 	nbig, namelen := 400, 20
 	if kind == "deep-htree" {
 		nbig, namelen = 2000, 180
+	}
+	t.huge = map[string]hugeFile{}
+	hostOnly := map[string][]byte{}
+	if kind == "special" {
+		nbig = 30
+		// a sparse file larger than 4 GiB: data at 0 and just beyond 4 GiB, holes in between and behind
+		t.huge["huge.bin"] = hugeFile{size: 4<<30 + 40960, segs: []hugeSeg{{0, patternBytes(21, 10240)}, {4<<30 + 10240, patternBytes(22, 10240)}}}
+		// a directory of 200 entries with 60-character names from which a run of 80 neighbours is removed afterwards: the
+		// run is longer than a directory block, so one removed entry is the first record of its block
+		t.dirs = append(t.dirs, "holes")
+		for i := 0; i < 200; i++ {
+			name := fmt.Sprintf("holes/h%03d-%s", i, strings.Repeat("m", 55))
+			if i >= 20 && i < 100 {
+				hostOnly[name] = []byte("x")
+				t.removed = append(t.removed, name)
+			} else {
+				add(name, []byte(fmt.Sprintf("kept %d\n", i)))
+			}
+		}
 	}
 	for i := 0; i < nbig; i++ {
 		name := fmt.Sprintf("e%05d-%s", i, strings.Repeat("n", namelen))
@@ -128,6 +174,26 @@ func buildHostTree(kind string) (*hostTree, error) {
 		}
 		f.Close()
 	}
+	for p, b := range hostOnly {
+		if err := os.WriteFile(filepath.Join(dir, p), b, 0o644); err != nil {
+			return nil, err
+		}
+	}
+	for p, h := range t.huge {
+		f, err := os.Create(filepath.Join(dir, p))
+		if err != nil {
+			return nil, err
+		}
+		for _, sg := range h.segs {
+			if _, err := f.WriteAt(sg.data, sg.off); err != nil {
+				return nil, err
+			}
+		}
+		if err := f.Truncate(h.size); err != nil {
+			return nil, err
+		}
+		f.Close()
+	}
 	for l, tg := range t.links {
 		if err := os.Symlink(tg, filepath.Join(dir, l)); err != nil {
 			return nil, err
@@ -174,6 +240,9 @@ func runMkfsCase(c *mkfsCase) (sig, msg, outcome string) {
 	size := "24M"
 	if c.Tree == "deep-htree" {
 		size = "40M"
+	}
+	if c.Tree == "special" {
+		size = "32M"
 	}
 	feats := append([]string{}, c.Features...)
 	fstype := "ext4"
@@ -227,6 +296,16 @@ func runMkfsCase(c *mkfsCase) (sig, msg, outcome string) {
 	}
 	if hasDirIndex {
 		_, _ = runCmd("/usr/sbin/e2fsck", "-f", "-y", "-D", img) // converts the big directory into a hash tree
+	}
+	if len(t.removed) > 0 {
+		var rm []string
+		for _, p := range t.removed {
+			rm = append(rm, "rm /"+p)
+		}
+		_ = os.WriteFile(sf, []byte(strings.Join(rm, "\n")+"\n"), 0o600)
+		if out, err := runCmd("/usr/sbin/debugfs", "-w", "-f", sf, img); err != nil {
+			return "", "", "debugfs-failed:" + errShape(out)
+		}
 	}
 	if out, err := runCmd("/usr/sbin/e2fsck", "-f", "-n", img); err != nil {
 		return "", "", "reference-image-not-clean:" + errShape(out)
@@ -288,6 +367,45 @@ func runMkfsCase(c *mkfsCase) (sig, msg, outcome string) {
 					fail("kind|"+tag, fmt.Sprintf("symlink %s is reported with mode %v", p, fi.Mode()))
 				}
 				seenFiles[p] = true
+				return nil
+			}
+			if h, isHuge := t.huge[p]; isHuge {
+				seenFiles[p] = true
+				if fi.Size() != h.size {
+					fail("size|"+tag+"|huge", fmt.Sprintf("%s: size %d, put in %d", p, fi.Size(), h.size))
+				}
+				f, e := fs.OpenFile(p, os.O_RDONLY)
+				if e != nil {
+					return nil
+				}
+				defer f.Close()
+				// probe windows: around every segment (the hole in front of it, the data, the hole behind it), and the tail
+				var probes [][2]int64
+				for _, sg := range h.segs {
+					for _, o := range []int64{sg.off - 8192, sg.off - 1000, sg.off, sg.off + int64(len(sg.data)) - 100} {
+						if o >= 0 {
+							probes = append(probes, [2]int64{o, 12288})
+						}
+					}
+				}
+				probes = append(probes, [2]int64{h.size - 5000, 5000}, [2]int64{1 << 32, 4096}, [2]int64{1<<32 - 4096, 8192}, [2]int64{1 << 31, 4096})
+				for _, pr := range probes {
+					n := int(pr[1])
+					if pr[0]+int64(n) > h.size {
+						n = int(h.size - pr[0])
+					}
+					if _, e := f.Seek(pr[0], io.SeekStart); e != nil {
+						continue
+					}
+					buf := make([]byte, n)
+					k, e := io.ReadFull(f, buf)
+					if e != nil {
+						continue // an error is acceptable
+					}
+					if want := h.expect(pr[0], n); k != n || !bytes.Equal(buf, want) {
+						fail("content|"+tag+"|huge-sparse", fmt.Sprintf("%s: %d bytes read at offset %d without error differ from what was put in (first difference at +%d)", p, n, pr[0], firstDiff(buf, want)))
+					}
+				}
 				return nil
 			}
 			want, known := t.files[p]
@@ -364,6 +482,11 @@ func runMkfsCase(c *mkfsCase) (sig, msg, outcome string) {
 			return "missing-entry|" + tag + "|" + fileClass(p), p + " was put in but is not listed, and no error was reported", "wrong-data"
 		}
 	}
+	for p := range t.huge {
+		if !seenFiles[p] {
+			return "missing-entry|" + tag + "|huge", p + " was put in but is not listed, and no error was reported", "wrong-data"
+		}
+	}
 	for p := range t.links {
 		if !seenFiles[p] {
 			return "missing-entry|" + tag + "|symlink", p + " was put in but is not listed, and no error was reported", "wrong-data"
@@ -379,6 +502,8 @@ func runMkfsCase(c *mkfsCase) (sig, msg, outcome string) {
 
 func fileClass(p string) string {
 	switch {
+	case strings.HasPrefix(p, "holes/"):
+		return "dir-with-removed-entries"
 	case strings.HasPrefix(p, "bigdir/"):
 		return "bigdir"
 	case strings.HasPrefix(p, "frag"):
@@ -420,6 +545,11 @@ func enumC20(quick bool) []mkfsCase {
 			cs = append(cs, mkfsCase{BlockSize: bs, InodeSize: is, FSType: "ext2-style", Tree: "std"})
 		}
 	}
+	// a sparse file beyond 4 GiB and a directory with removed entries in front of live ones (hashed and linear)
+	for _, bs := range []int{1024, 4096} {
+		cs = append(cs, mkfsCase{BlockSize: bs, InodeSize: 256, Features: []string{"metadata_csum", "dir_index"}, FSType: "ext4", Tree: "special"})
+		cs = append(cs, mkfsCase{BlockSize: bs, InodeSize: 256, Features: []string{"metadata_csum", "^dir_index"}, FSType: "ext4", Tree: "special"})
+	}
 	// a directory large enough for a hash tree with an interior level
 	cs = append(cs, mkfsCase{BlockSize: 1024, InodeSize: 256, Features: []string{"dir_index"}, FSType: "ext4", Tree: "deep-htree"})
 	if !quick {
@@ -450,7 +580,7 @@ func C20(r *ev.Run) {
 	r.Set("evaluations", int64(done))
 	r.Set("distinct_nontrivial", int64(ok.n()))
 	r.Set("distinct_outcomes", outcomes.snapshot())
-	r.Set("rule", "images built by the reference tools: a host tree (400-entry directory turned into a hash tree by e2fsck -fD, a file of 200 alternating data/hole blocks, a file behind a 1 MiB hole, plain files, symlinks of 59/60/200 bytes and a relative one, in-inode and block xattrs via debugfs ea_set, odd modes/owners with different upper halves/post-2038 times via debugfs sif; plus a 2000-entry directory of 180-character names whose hash tree has an interior level) written by mke2fs -d for block size {1K,2K,4K} x inode size {128,256} x every subset (quick: all-on, all-off, single-on, single-off) of {64bit, flex_bg, metadata_csum, dir_index, huge_file, sparse_super2, has_journal} plus ext2-style images without extents; each image verified clean with e2fsck first. The library must refuse the image, return an error for what it cannot read, or report exactly what was put in: tree, bytes (holes as zeros), sizes, modes, owners, times, link targets, xattrs. non-trivial = distinct images that mke2fs accepted and that the library opened, refused or walked")
+	r.Set("rule", "images built by the reference tools: a host tree (400-entry directory turned into a hash tree by e2fsck -fD, a file of 200 alternating data/hole blocks, a file behind a 1 MiB hole, plain files, symlinks of 59/60/200 bytes and a relative one, in-inode and block xattrs via debugfs ea_set, odd modes/owners with different upper halves/post-2038 times via debugfs sif; plus a 2000-entry directory of 180-character names whose hash tree has an interior level; plus a tree with a sparse file of 4 GiB+40 KiB (data at 0 and just beyond 4 GiB, read through probe windows in and around the holes) and a 200-entry directory from which a run of 80 neighbouring entries was removed with debugfs rm after indexing, hashed and linear) written by mke2fs -d for block size {1K,2K,4K} x inode size {128,256} x every subset (quick: all-on, all-off, single-on, single-off) of {64bit, flex_bg, metadata_csum, dir_index, huge_file, sparse_super2, has_journal} plus ext2-style images without extents; each image verified clean with e2fsck first. The library must refuse the image, return an error for what it cannot read, or report exactly what was put in: tree, bytes (holes as zeros), sizes, modes, owners, times, link targets, xattrs. non-trivial = distinct images that mke2fs accepted and that the library opened, refused or walked")
 	r.Set("exhaustive", done == len(cases))
 	r.Assume("e2fsprogs 1.47.0 builds the reference images; a refusal or an error is always acceptable, only silent wrong data is a violation")
 }
